@@ -491,6 +491,60 @@ fn exec_held(n: usize, inh: bool, out: &mut CaseOut) {
     }
 }
 
+/// A relationship query whose RESOLVER asks the same namespace (a resolver is user code: looking a record up and
+/// reflecting it is what resolvers do).  `n` sibling defs, a transitive relationship, a chain of records; the resolver
+/// queries `inheritance` / `supertypes_of` of a cold def on every call.  Run on a thread of its own with a deadline.
+fn exec_resolver(n: usize, out: &mut CaseOut) {
+    out.nontrivial = true;
+    out.stat("resolver_queries_ns");
+    let mut text = String::from(
+        "ver:\"3.0\"\ndef,is,transitive,containedBy\n^marker,,,\n^relationship,[^marker],,\n^ref,,,\n^space,[^marker],,\n^containedBy,[^relationship],M,\n^spaceRef,[^ref],,^space\n",
+    );
+    for i in 0..n {
+        text.push_str(&format!("^t{i},[^marker],,\n"));
+    }
+    let (tx, rx) = std::sync::mpsc::channel::<Result<(bool, usize), String>>();
+    std::thread::spawn(move || {
+        let grid = match libhaystack::encoding::zinc::decode::from_str(&text).ok().and_then(|v| Grid::try_from(&v).ok()) {
+            Some(g) => g,
+            None => return tx.send(Err("defs grid".into())).unwrap_or(()),
+        };
+        let ns: &'static Namespace<'static> = Box::leak(Box::new(Namespace::make(grid)));
+        // records r0 -> r1 -> ... -> r9 through spaceRef
+        let rec = |i: usize| {
+            let mut d = Dict::new();
+            d.insert("id".into(), Value::make_ref(&format!("r{i}")));
+            d.insert("spaceRef".into(), Value::make_ref(&format!("r{}", i + 1)));
+            d
+        };
+        let calls = std::cell::Cell::new(0usize);
+        let resolve = |r: &Ref| -> Option<Dict> {
+            let k = calls.get();
+            calls.set(k + 1);
+            // what a resolver does: look at the namespace (cold symbols, spread over every shard)
+            for j in 0..300 {
+                let sym = Symbol::from(format!("t{}", (k * 300 + j) % n).as_str());
+                let _ = ns.inheritance(&sym).len();
+                let _ = ns.supertypes_of(&sym).len();
+            }
+            let i: usize = r.value[1..].parse().ok()?;
+            if i < 9 {
+                Some(rec(i))
+            } else {
+                None
+            }
+        };
+        let got = ns.has_relationship(&rec(0), &Symbol::from("containedBy"), &None, &Some(Ref::from("r7")), &resolve);
+        let _ = tx.send(Ok((got, calls.get())));
+    });
+    match rx.recv_timeout(std::time::Duration::from_secs(20)) {
+        Ok(Ok((true, _))) => {}
+        Ok(Ok((false, c))) => out.fail("harness", format!("the relationship query answered false after {c} resolver calls (the scenario is meant to hold)")),
+        Ok(Err(e)) => out.fail("harness", e),
+        Err(_) => out.fail("resolver_deadlock", "has_relationship with a resolver that queries the same namespace (cold symbols) never returns".into()),
+    }
+}
+
 /// Two threads: A keeps the answer of `inheritance(^t0)` alive for `ms` milliseconds and then lets go of it; B
 /// meanwhile queries every other def cold.  B may have to WAIT for A (the cache insert needs the shard A's answer
 /// points into) but it must come back with the right answers once A has let go: no panic, no wrong or partial answer.
@@ -545,6 +599,10 @@ pub fn exec(_label: &str, input: &str, out: &mut CaseOut) {
     install_hook();
     let mut rd = vx::Rd::new(input);
     let mode = rd.tok().unwrap_or("");
+    if mode == "resolver" {
+        let n: usize = rd.num().unwrap_or(3000);
+        return exec_resolver(n, out);
+    }
     if mode == "held2" {
         let n: usize = rd.num().unwrap_or(2000);
         let ms: u64 = rd.num().unwrap_or(1500);
@@ -976,6 +1034,7 @@ pub fn generate(ctx: &mut Ctx) {
     // an earlier answer kept alive across cold queries (known finding GUARD)
     ctx.case("held:sup", "held 2000 sup");
     ctx.case("held2", "held2 2000 1500");
+    ctx.case("resolver", "resolver 3000");
     if !ctx.quick() {
         ctx.case("held:inh", "held 2000 inh");
     }
